@@ -3,7 +3,7 @@ from ..codec import Rng, expand, spec_len
 from .. import oracle as o
 
 ID = 'C02'
-RULE = ('one record per operation history on hash contexts (update, update_mut, clone, clone_from, reset, reset_with_key, finalize_reset, '
+RULE = ('(every update piece is handed to the library from byte offset (len + first byte) mod 16 of a 64-byte aligned buffer) one record per operation history on hash contexts (update, update_mut, clone, clone_from, reset, reset_with_key, finalize_reset, '
         'finalize_reset_with_key, finalize); model state per object = (key, bytes since reset); every emitted digest must equal the '
         'reference hash of the model state; exhaustive op sequences to depth 2 (quick) / 3 (thorough) over a 15-symbol alphabet plus '
         'random histories; distinct = (variant, op-kind sequence with chunk-length classes)')
